@@ -279,6 +279,7 @@ def real_runs(s):
         cases.append(("diopside", {"qha": {"settings": {"NT": 6, "DT": 300, "DT_SAMPLE": 300, "NTV": 21, "DELTA_P": 0.5, "DELTA_P_SAMPLE": 0.5}}}))
     for ex, settings in cases:
         with calc_env.Case(ex, settings) as case:
+          try:
             calc = case.build()
             pb, vb = calc.pressure_base, calc.volume_base
             Ptv = numpy.asarray(calc.qha_calculator.volume_base.pressures)
@@ -319,7 +320,9 @@ def real_runs(s):
                         msg = "pressure_base.%s differs from volume_base.%s at the volume where P(T,V)=P (T index %d, max dev %.3g, one grid step changes it by %.3g)" % (
                             name, name, t, numpy.abs(fp - ref).max(), scale)
                         break
-            if msg:
+          except Exception as e:
+            msg = "the calculation / conversion raises %r" % (e,)
+          if msg:
                 fails.append({"witness_id": "real:%s" % ex, "input": {"example": ex, "settings": settings}, "observed": msg, "expected": "conversion at the volume where P(T,V)=P"})
                 break
         # overshooting grid must be rejected
